@@ -63,7 +63,7 @@ type Fault struct {
 	InRows    bool
 	AfterRows int
 	seen      int
-	fired    int
+	fired     int
 }
 
 type rowFault struct {
